@@ -274,6 +274,25 @@ func c05Codes(r *eng.Run) []*c07Sys {
 		}
 	}
 	recAbs(nil)
+	// jumps that do not leave their own instruction or block: j . (jal x0,0), a conditional
+	// and a linking self-jump, and a jump back to the previous instruction, at every
+	// position of blocks of 2..3 instructions (a self-jump is a real jump: the block ends
+	// after it and starts before it)
+	self := []uint32{prog.Addi(1, 0, 5), prog.Addi(2, 1, 7), prog.Jal(0, 0), prog.Beq(1, 3, 0), prog.Jal(5, 0), prog.Jal(0, -4), prog.Beq(1, 1, -4)}
+	var recSelf func(ws []uint32)
+	recSelf = func(ws []uint32) {
+		if len(ws) >= 2 {
+			if s, err := newC07Sys([]prog.Seg{{Base: 0x1000, Words: append([]uint32{}, ws...)}}, 0x1000); err == nil {
+				out = append(out, s)
+			}
+		}
+		if len(ws) < 3 {
+			for _, w := range self {
+				recSelf(append(ws[:len(ws):len(ws)], w))
+			}
+		}
+	}
+	recSelf(nil)
 	// synthetic blocks: multi-store / multi-write / multi-space instructions (alphabet of C06),
 	// every sequence of 2 and (quick: a third of) 3
 	na := len(synAlphabet())
@@ -299,7 +318,7 @@ func c05Codes(r *eng.Run) []*c07Sys {
 func init() {
 	checks["C05"] = eng.Check{
 		Hist:        true,
-		Rule:        "every block of <=3 (thorough 4) instructions over a 19-word alphabet chosen around the dependency rules (three writers of x1, reader, read-modify-write, a link-register write by the pseudo-jump jal x1,+4, sd/ld on one base with and without a shared register, a partially overlapping sb, fence, ecall, csrrw, amoadd.w, the pseudo-jumps jal x5,+4 and beq x0,x0,+4, auipc), optionally ended by a real terminating beq/jal, followed by nops, every block of 2..4 instructions over 7 words with ABSOLUTE addresses (stores and loads at 16(x0), 17(x0), 18(x0) and 512(x0): constant addresses near and far apart), and every block of 2 (quick: a third of those of 3) SYNTHETIC instructions from the C06 alphabet (several stores into one / two spaces, several register writes, load+store of one space; synthetic registers hold one of three nearby addresses so that accesses alias in some initial states): explicit-state search over ALL orders reachable through accepted Block.Move calls (state = order; successor = fresh real code + replay + move); every reachable order is run in the real emulator from 3 initial states (aliasing and non-aliasing addresses, all registers preloaded) until pc leaves the block or a horizon, and compared (registers, writable-memory bytes, final pc, termination) with the run of the original order. A second pass walks ONE long-lived instance through a depth-2 (thorough 3) tour of accepted, rejected and undo moves and runs the emulator comparison in every node. Block moves on the 4 multi-block codes of C07: every pair of Code.Move calls leaves each instruction's address, text and single-step behaviour unchanged, and after every one or two block moves the order search of every block is repeated (instruction moves after block moves). Non-trivial = block with more than one reachable order.",
+		Rule:        "every block of <=3 (thorough 4) instructions over a 19-word alphabet chosen around the dependency rules (three writers of x1, reader, read-modify-write, a link-register write by the pseudo-jump jal x1,+4, sd/ld on one base with and without a shared register, a partially overlapping sb, fence, ecall, csrrw, amoadd.w, the pseudo-jumps jal x5,+4 and beq x0,x0,+4, auipc), optionally ended by a real terminating beq/jal, followed by nops, every block of 2..3 instructions over 7 words with jumps that stay inside their own instruction or block (j ., beq x1,x3,+0, jal x5,+0, j -4, beq x1,x1,-4), every block of 2..4 instructions over 7 words with ABSOLUTE addresses (stores and loads at 16(x0), 17(x0), 18(x0) and 512(x0): constant addresses near and far apart), and every block of 2 (quick: a third of those of 3) SYNTHETIC instructions from the C06 alphabet (several stores into one / two spaces, several register writes, load+store of one space; synthetic registers hold one of three nearby addresses so that accesses alias in some initial states): explicit-state search over ALL orders reachable through accepted Block.Move calls (state = order; successor = fresh real code + replay + move); every reachable order is run in the real emulator from 3 initial states (aliasing and non-aliasing addresses, all registers preloaded) until pc leaves the block or a horizon, and compared (registers, writable-memory bytes, final pc, termination) with the run of the original order. A second pass walks ONE long-lived instance through a depth-2 (thorough 3) tour of accepted, rejected and undo moves and runs the emulator comparison in every node. Block moves on the 4 multi-block codes of C07: every pair of Code.Move calls leaves each instruction's address, text and single-step behaviour unchanged, and after every one or two block moves the order search of every block is repeated (instruction moves after block moves). Non-trivial = block with more than one reachable order.",
 		Assumptions: []string{"differential oracle: original order vs reordered order on the same emulator", "all registers are preloaded so the known narrow-first-read finding of C03 cannot influence the comparison"},
 		Run: func(r *eng.Run) {
 			codes := c05Codes(r)
